@@ -280,10 +280,23 @@ def ars_build(c):
         kw["registration_request_header"] = None if c["event"] is None else RegistrationRequestHeader(event=RegistrationEvent[c["event"]], encoding=ARSEncoding.UTF8)
         kw["device_identifier"], kw["user_identifier"], kw["password"] = c["ids"]
     elif c["kind"] == "ars_response":
+        rsh = None
         if c["failure"] is not None:
-            kw["response_second_header"] = ResponseSecondHeader(failure_reason=FailureReason[c["failure"]]).context(fh)
+            rsh = ResponseSecondHeader(failure_reason=FailureReason[c["failure"]])
         elif c["refresh"] is not None:
-            kw["response_second_header"] = ResponseSecondHeader(refresh_time=c["refresh"]).context(fh)
+            rsh = ResponseSecondHeader(refresh_time=c["refresh"])
+        if rsh is not None:
+            # the second header is bound to its first header in the fluent style, by a call used as a statement, or after the PDU was built
+            how = c.get("ctx", "fluent")
+            if how == "fluent":
+                rsh = rsh.context(fh)
+            elif how == "statement":
+                rsh.context(fh)
+            kw["response_second_header"] = rsh
+            if how == "after":
+                pdu_ = AutomaticRegistrationService(**kw)
+                pdu_.response_second_header.context(pdu_.header if hasattr(pdu_, "header") else fh)
+                return pdu_
     return AutomaticRegistrationService(**kw)
 
 
@@ -674,9 +687,13 @@ def run(only=None):
                     if a:
                         for fr in ARS_FAILURES:
                             cases.append({**base, "more": True, "failure": fr, "refresh": None})
+                            cases.append({**base, "more": True, "failure": fr, "refresh": None, "ctx": "statement"})
                     else:
                         for rt in range(1, 128):
                             cases.append({**base, "more": True, "failure": None, "refresh": rt})
+                        for rt in (1, 5, 64, 127):
+                            for how in ("statement", "after"):
+                                cases.append({**base, "more": True, "failure": None, "refresh": rt, "ctx": how})
         s.declared = len(cases)
         for n, c in enumerate(cases):
             check_ars(s, c, sample=(c["refresh"] == 1 and c["priority"] and c["control"] and not c["csbk"] and c["form"] == "enum"))
